@@ -3,6 +3,9 @@
  *   type trait operations
  */
 
+#include <cstdlib>
+#include <new>
+
 #include "types.h"
 
 __MPT_NAMESPACE_BEGIN
@@ -21,6 +24,23 @@ extern int type_traits::add(const type_traits &traits)
 {
 	return mpt_type_add(&traits);
 }
+
+#if __cplusplus >= 201103L
+// registry keeps address of traits: temporary object needs persistent copy
+extern int type_traits::add(type_traits &&traits)
+{
+	void *ptr;
+	if (!(ptr = malloc(sizeof(traits)))) {
+		return BadOperation;
+	}
+	type_traits *copy = new (ptr) type_traits(traits);
+	int type;
+	if ((type = mpt_type_add(copy)) < 0) {
+		free(ptr);
+	}
+	return type;
+}
+#endif
 
 extern int type_traits::add_basic(size_t size)
 {
